@@ -1,5 +1,6 @@
 import Restli.Proofs.EncodePerm
 import Restli.Proofs.EqualEncode
+import Restli.Proofs.GenEqualsFuel
 /-! # C09 — deterministic, canonical serialization (v2)
 
 The writer model sorts the entries of every object by key (`EncCfg.sortKeys`, what v2's
@@ -89,6 +90,15 @@ theorem c09_equal_values_encode_identically (c : EncCfg) (hs : c.sortKeys = true
     (he : valueEqZ c.env f ty a b = true) (h : encode c f scope ty a = .ok d) :
     encode c f scope ty b = .ok d :=
   encCong c hs f scope ty a b d ha hb he h
+
+/-- the depth budgets of the two models are independent artefacts: equality judged at any budget
+`f` gives the same document at any writer budget `g ≥ f` -/
+theorem c09_equal_values_encode_identically_any_fuel (c : EncCfg) (hs : c.sortKeys = true) (f g : Nat)
+    (hfg : f ≤ g) (scope : List Bytes) (ty : Ty) (a b : Value) (d : Doc) (ha : ValOK a) (hb : ValOK b)
+    (he : valueEqZ c.env f ty a b = true) (h : encode c g scope ty a = .ok d) :
+    encode c g scope ty b = .ok d :=
+  encCong c hs g scope ty a b d ha hb
+    (valueEqZ_fuel_mono c.env f g hfg ty a b (mapsOK_of_valOK a ha) (mapsOK_of_valOK b hb) he) h
 
 /-- hence byte-identical output, whatever the renderer -/
 theorem c09_equal_values_same_bytes {β : Type} (render : Doc → β) (c : EncCfg) (hs : c.sortKeys = true)
